@@ -134,6 +134,11 @@ func flight4Parse(
 			if psk, err = cfg.LocalPSKCallback(bytes.Clone(clientKeyExchange.IdentityHint)); err != nil {
 				return 0, &alert.Alert{Level: alert.Fatal, Description: alert.InternalError}, err
 			}
+			if len(psk) == 0 {
+				// An empty key is what a lookup of an unknown identity yields;
+				// with it the pre-master secret would be public.
+				return 0, &alert.Alert{Level: alert.Fatal, Description: alert.InternalError}, dtlserrors.ErrIdentityNoPSK
+			}
 			state.IdentityHint = bytes.Clone(clientKeyExchange.IdentityHint)
 			switch state.CipherSuite.KeyExchangeAlgorithm() {
 			case ciphersuite.KeyExchangeAlgorithmPsk:
